@@ -57,6 +57,8 @@ class FsMixin:
         return SVal(KPath, [self.coerce_to(st, d, KName).z, self.coerce_to(st, n, KName).z])
 
     def b_os_path_basename(self, st, fr, args, kw):
+        if isinstance(args[0], SVal) and args[0].kind == KName:
+            return args[0]          # a name holds no '/': it is its own base name
         d, n = self.as_path(st, args[0])
         return SVal(KName, [n])
 
@@ -162,7 +164,8 @@ class FsMixin:
         """glob.glob(os.path.join(d, '*')): the paths of the names present in d that do not start with a dot."""
         d, pat = self.as_path(st, args[0])
         star = lift('*', KName).z
-        if not pat.eq(star):
+        gm = self.reg.ufuncs.get('glob_match')
+        if not pat.eq(star) and gm is None:
             raise CheckerError('glob pattern other than <dir>/*')
         hidden = self.reg.ufuncs.get('fs_hidden')
         row = z3.Select(self.fs_arr(st.heap, FS_KIND), d)
@@ -170,6 +173,10 @@ class FsMixin:
         dom = z3.Const(fresh_name('globdom'), z3.ArraySort(I, z3.BoolSort()))
         k = z3.Int(fresh_name('k'))
         vis = z3.Not(hidden[0](k)) if hidden is not None else z3.BoolVal(True)
+        if not pat.eq(star):
+            # a pattern with wildcards inside: the names present that match it (glob_match: uninterpreted, declared by
+            # the contract module; what fnmatch decides is a dependency)
+            vis = z3.And(vis, gm[0](pat, k))
         st.assume(z3.ForAll([k], z3.Select(dom, k) == z3.And(k > 0, z3.Select(row, k) != 0, vis),
                             patterns=[z3.Select(dom, k)]))
         names = self.snapshot_keys(st, SVal(KSet(KName), [dom]))
